@@ -170,11 +170,21 @@ def walkUpper (dest : Path) (fs : FS) (dl : List String) : Except WalkErr Walk :
   | some p => Except.ok { fs := fs, cur := p, creating := false }        -- upperdirs exists: nothing to make
   | none => walkParent dest fs dl
 
-/-- the entry itself, `last` being the last component of the member's name and `cur` the directory reached for its parent -/
-def placeFinal (dest : Path) (fs : FS) (earlier : List Member) (m : Member) (cur : Path) (last : String) : Verdict :=
+/-- the archive being extracted and the position of the member at hand: the copy fallbacks of `TarFile.makelink` look other
+  members up (a hard link among those before it, a symbolic link in the whole archive) -/
+structure Arch where
+  all : List Member
+  pos : Nat
+deriving Repr
+
+def Arch.next (a : Arch) : Arch := { a with pos := a.pos + 1 }
+
+/-- what `TarFile._extract_member(member, targetpath)` makes at `here` (= `cur`/`last`) for a regular file, a directory or a
+  symbolic link with the given payload, when `cur` is a directory -/
+def placePayload (dest : Path) (fs : FS) (kind : Kind) (content : Nat) (linkname : String) (cur : Path) (last : String) : Verdict :=
   let literalDir := last == "" || last == "." || last == ".."
   let here : Path := if last == "" || last == "." then cur else if last == ".." then cur.dropLast else cur ++ [last]
-  match m.kind with
+  match kind with
   | Kind.dir =>
     match existsAbs dest fs here with
     | none => writeAt dest fs here Node.dir
@@ -187,43 +197,181 @@ def placeFinal (dest : Path) (fs : FS) (earlier : List Member) (m : Member) (cur
       -- open(.., 'wb') follows the link the way the kernel does
       match kopen dest fs FUEL cur [last] with
       | Except.error why => Verdict.osError fs why
-      | Except.ok q => writeAt dest fs q (Node.file m.content)
-    | _ => writeAt dest fs here (Node.file m.content)
+      | Except.ok q => writeAt dest fs q (Node.file content)
+    | _ => writeAt dest fs here (Node.file content)
   | Kind.sym =>
     if literalDir then Verdict.osError fs "IsADirectoryError" else
     match existsAbs dest fs here with
     | some Node.dir => Verdict.osError fs "IsADirectoryError"
-    | _ => writeAt dest fs here (Node.link m.linkname)     -- an existing file or link is unlinked first
-  | Kind.hard =>
-    if literalDir then Verdict.osError fs "IsADirectoryError" else
-    let tgt := kresolve dest fs FUEL dest (split m.linkname)
-    let inArchive := earlier.any (fun e => e.name == m.linkname)
-    match tgt with
-    | some t =>
-      match (if isPrefix dest t then lookup fs (rel dest t) else none), existsAbs dest fs here with
-      | some (Node.file c), none => writeAt dest fs here (Node.file c)     -- os.link succeeds
-      | _, _ => Verdict.unmodelled
-    | none => if inArchive then Verdict.unmodelled else Verdict.osError fs "KeyError"   -- linkname not found
+    | _ => writeAt dest fs here (Node.link linkname)     -- an existing file or link is unlinked first
+  | _ => Verdict.unmodelled
+
+/-- os.path.normpath of a member name or link name, as what identifies it: the leading slashes that count and the components
+  kept (`.` and empty ones dropped, `..` cancelling the component before it) -/
+def normKey (s : String) : Nat × List String :=
+  let lead := if s.startsWith "///" then 1 else if s.startsWith "//" then 2 else if s.startsWith "/" then 1 else 0
+  (lead, (split s).foldl (fun acc c =>
+    if c == "" || c == "." then acc
+    else if c != ".." || (lead == 0 && acc.isEmpty) || acc.getLast? == some ".." then acc ++ [c]
+    else acc.dropLast) [])
+
+/-- `TarFile._getmember(name, tarinfo=limit, normalize=True)`: the LATEST member among the first `bound` ones whose normalised
+  name is `key` -/
+def findBefore (all : List Member) (bound : Nat) (key : Nat × List String) : Option Nat :=
+  (List.range (min bound all.length)).reverse.find? (fun j =>
+    match all[j]? with
+    | some e => normKey e.name == key
+    | none => false)
+
+/-- os.path.dirname -/
+def dirname (s : String) : String :=
+  let cs := split s
+  let head := "/".intercalate cs.dropLast
+  if cs.length ≤ 1 then "" else
+  if head.all (· == '/') then (if head.isEmpty then "/" else head ++ "/") else
+    String.ofList (head.toList.reverse.dropWhile (· == '/')).reverse
+
+/-- the name `_find_link_target` searches for a symbolic link: its link name seen from the directory of its own name -/
+def symKey (e : Member) : Nat × List String :=
+  let d := dirname e.name
+  normKey (if d.isEmpty then e.linkname else if e.linkname.isEmpty then d else d ++ "/" ++ e.linkname)
+
+/-- what stands where the member is to be made -/
+inductive Ground where
+  | free        -- the parent is a directory and the place is empty or holds a file or a link
+  | dirThere    -- the place IS a directory (or the name ends in `.`): nothing can be put there
+  | notDir      -- the parent is not a directory: nothing can be put below it
+deriving DecidableEq, Repr
+
+/-- `TarFile._extract_member(all[j], targetpath)` as the copy fallback of `makelink` calls it, `targetpath` being the place of the
+  member at hand.  The member found is extracted THERE: a file, a directory or a symbolic link is made if the ground allows;
+  a symbolic link that cannot be made (the place is a directory: `unlink` fails) falls back in turn to the member ITS target
+  names, searched in the whole archive; a hard link found has no prepared target (AttributeError) and falls back to the member
+  its link name names among those before it.  A search that fails is a logged ExtractError; any OSError on the way is fatal; a
+  search that goes round in circles ends in RecursionError. -/
+def chain (dest : Path) (fs : FS) (all : List Member) (cur : Path) (last : String) (g : Ground) : Nat → Nat → Verdict
+  | 0, _ => Verdict.osError fs "RecursionError"
+  | fuel + 1, j =>
+    match all[j]? with
+    | none => Verdict.unmodelled
+    | some e =>
+      match e.kind with
+      | Kind.hard =>
+        match findBefore all j (normKey e.linkname) with
+        | none => Verdict.skipped fs
+        | some k => chain dest fs all cur last g fuel k
+      | Kind.sym =>
+        match g with
+        | Ground.free => placePayload dest fs Kind.sym e.content e.linkname cur last
+        | _ =>
+          match findBefore all all.length (symKey e) with
+          | none => Verdict.skipped fs
+          | some k => chain dest fs all cur last g fuel k
+      | Kind.file =>
+        match g with
+        | Ground.free => placePayload dest fs Kind.file e.content e.linkname cur last
+        | Ground.dirThere => Verdict.osError fs "IsADirectoryError"
+        | Ground.notDir => Verdict.osError fs "NotADirectoryError"
+      | Kind.dir =>
+        match g with
+        | Ground.free => placePayload dest fs Kind.dir e.content e.linkname cur last
+        | Ground.dirThere => Verdict.ok fs             -- mkdir: FileExistsError is ignored
+        | Ground.notDir => Verdict.osError fs "NotADirectoryError"
+      | Kind.special =>
+        match g with
+        | Ground.free => Verdict.unmodelled        -- a fifo would be made: never reached (Props: untar_never_unmodelled)
+        | Ground.dirThere => Verdict.osError fs "FileExistsError"
+        | Ground.notDir => Verdict.osError fs "NotADirectoryError"
+
+/-- what `os.link(dest/linkname, ..)` would link: the kernel walks every component but the last, and does NOT follow a link in
+  last position; `none` when `os.path.exists(dest/linkname)` is false (something on the way, or the end, does not exist) -/
+def linkSource (dest : Path) (fs : FS) (comps : List String) : Option Node :=
+  match kresolve dest fs FUEL dest comps with
+  | none => none
+  | some r =>
+    let last := comps.getLast?.getD ""
+    if last == "" || last == "." || last == ".." then (if isDirAt dest fs r then some Node.dir else none)
+    else
+      match kresolve dest fs FUEL dest comps.dropLast with
+      | none => none
+      | some p => existsAbs dest fs (p ++ [last])
+
+/-- the place of the entry: the parent itself when the name ends in `.` -/
+def hereOf (cur : Path) (last : String) : Path :=
+  if last == "" || last == "." then cur else if last == ".." then cur.dropLast else cur ++ [last]
+
+/-- the ground a member is placed on -/
+def groundOf (dest : Path) (fs : FS) (cur : Path) (last : String) (curIsDir : Bool) : Ground :=
+  if !curIsDir then Ground.notDir
+  else if (last == "" || last == "." || last == "..") || existsAbs dest fs (hereOf cur last) == some Node.dir then Ground.dirThere
+  else Ground.free
+
+/-- the entry itself, `last` being the last component of the member's name, `cur` what was reached for its parent and
+  `curIsDir` whether that is a directory -/
+def placeFinal (dest : Path) (fs : FS) (arch : Arch) (m : Member) (cur : Path) (last : String) (curIsDir : Bool) : Verdict :=
+  let here : Path := hereOf cur last
+  let g : Ground := groundOf dest fs cur last curIsDir
+  let fuel := arch.all.length + 1
+  match m.kind with
   | Kind.special => Verdict.filterError "SpecialFileError"
+  | Kind.hard =>
+    -- TarFile.makelink: os.link when the target exists, else (or when os.link fails: EEXIST, EPERM on a directory, ENOTDIR)
+    -- the copy of the member the link name names among those before
+    match linkSource dest fs (split m.linkname) with
+    | none =>
+      match findBefore arch.all arch.pos (normKey m.linkname) with
+      | none => Verdict.osError fs "KeyError"
+      | some k => chain dest fs arch.all cur last g fuel k
+    | some src =>
+      if g == Ground.free && (existsAbs dest fs here).isNone && src != Node.dir then
+        writeAt dest fs here src                         -- a second name for the same file or symbolic link
+      else
+        match findBefore arch.all arch.pos (normKey m.linkname) with
+        | none => Verdict.skipped fs
+        | some k => chain dest fs arch.all cur last g fuel k
+  | Kind.sym =>
+    match g with
+    | Ground.free => placePayload dest fs Kind.sym m.content m.linkname cur last
+    | _ =>
+      match findBefore arch.all arch.all.length (symKey m) with
+      | none => Verdict.skipped fs
+      | some k => chain dest fs arch.all cur last g fuel k
+  | Kind.file =>
+    match g with
+    | Ground.free => placePayload dest fs Kind.file m.content m.linkname cur last
+    | Ground.dirThere => Verdict.osError fs "IsADirectoryError"
+    | Ground.notDir => Verdict.osError fs "NotADirectoryError"
+  | Kind.dir =>
+    match g with
+    | Ground.free => placePayload dest fs Kind.dir m.content m.linkname cur last
+    | Ground.dirThere => Verdict.ok fs
+    | Ground.notDir => Verdict.osError fs "NotADirectoryError"
+
+/-- `targetpath.rstrip("/")` on components: the empty components a name ends with are dropped -/
+def trimEmpty : List String → List String
+  | [] => []
+  | c :: cs =>
+    match trimEmpty cs with
+    | [] => if c == "" then [] else [c]
+    | r => c :: r
 
 /-- TarFile._extract_member for a vetted member whose name splits into `comps`: make the missing parent directories
   (os.makedirs on the literal path), then create the entry where the kernel's walk of the parent ended -/
-def placeMember (dest : Path) (fs : FS) (earlier : List Member) (m : Member) (comps : List String) : Verdict :=
+def placeMember (dest : Path) (fs : FS) (arch : Arch) (m : Member) (comps : List String) : Verdict :=
   match walkUpper dest fs comps.dropLast with
   | Except.error (WalkErr.os fs' why) => Verdict.osError fs' why
   | Except.error (WalkErr.escaped p) => Verdict.escaped p
   | Except.ok w =>
-    -- upperdirs "exists" also when it is (a link to) a regular file: creating anything below it is ENOTDIR
-    if !isDirAt dest w.fs w.cur then Verdict.osError w.fs "NotADirectoryError"
-    else placeFinal dest w.fs earlier m w.cur (comps.getLast?.getD "")
+    -- upperdirs "exists" also when it is (a link to) a regular file: whatever is tried below it is ENOTDIR
+    placeFinal dest w.fs arch m w.cur (comps.getLast?.getD "") (isDirAt dest w.fs w.cur)
 
 /-- untar_file's own guard (names with a `..` component are refused), then the `data` filter
   (tarfile._get_filtered_attrs) followed by TarFile._extract_member (`placeMember`).
   The guard of the code looks at the raw member name; the components of the name without its leading slashes are a
   suffix of those (the dropped ones are empty), so the second test below never changes the answer: it is there because the
   theorems are about the components that are walked.
-  `earlier` = the members already seen (a hard link whose target is not on disk is extracted from the archive) -/
-def extractMember (dest : Path) (fs : FS) (earlier : List Member) (m : Member) : Verdict :=
+  `arch` = the archive and the position of `m` in it (the copy fallbacks of links look other members up) -/
+def extractMember (dest : Path) (fs : FS) (arch : Arch) (m : Member) : Verdict :=
   let name := stripSlashes m.name
   if (split m.name).contains ".." || (split name).contains ".." then Verdict.filterError "OutsideDestinationError" else
   match realpath dest fs FUEL dest (split name) with
@@ -242,7 +390,7 @@ def extractMember (dest : Path) (fs : FS) (earlier : List Member) (m : Member) :
     match linkCheck with
     | some "ELOOP" => Verdict.osError fs "ELOOP"
     | some why => Verdict.filterError why
-    | none => placeMember dest fs earlier m (split name)
+    | none => placeMember dest fs arch m (trimEmpty (split name))
 
 /-- why an extraction stopped -/
 inductive Stop where
@@ -259,17 +407,17 @@ def Stop.name : Stop → String
   | Stop.escaped _ => "escaped"
 
 /-- untar_file: members in archive order; the first fatal error stops the extraction -/
-def untarFrom (dest : Path) (fs : FS) (earlier : List Member) : List Member → FS × Option Stop
+def untarFrom (dest : Path) (fs : FS) (arch : Arch) : List Member → FS × Option Stop
   | [] => (fs, none)
   | m :: ms =>
-    match extractMember dest fs earlier m with
-    | Verdict.ok fs' => untarFrom dest fs' (earlier ++ [m]) ms
-    | Verdict.skipped fs' => untarFrom dest fs' (earlier ++ [m]) ms
+    match extractMember dest fs arch m with
+    | Verdict.ok fs' => untarFrom dest fs' arch.next ms
+    | Verdict.skipped fs' => untarFrom dest fs' arch.next ms
     | Verdict.filterError why => (fs, some (Stop.filter why))
     | Verdict.osError fs' why => (fs', some (Stop.os why))
     | Verdict.unmodelled => (fs, some Stop.unmodelled)
     | Verdict.escaped p => (fs, some (Stop.escaped p))
 
-def untar (dest : Path) (fs : FS) (ms : List Member) : FS × Option Stop := untarFrom dest fs [] ms
+def untar (dest : Path) (fs : FS) (ms : List Member) : FS × Option Stop := untarFrom dest fs { all := ms, pos := 0 } ms
 
 end Kapture.C18
